@@ -608,6 +608,7 @@ def run(ctx):
     # round-robin over the files so that the (heavier) directed cases are spread over all coqc jobs
     nfiles = max(1, min(16, -(-len(body) // 40))) if len(body) <= 16 * per_file else -(-len(body) // per_file)
     files = [(body[i::nfiles], recs[i::nfiles]) for i in range(nfiles) if body[i::nfiles]]
+    large_stream(ctx)
     mism = []
     if gen_ok:
         paths = []
@@ -648,7 +649,65 @@ def run(ctx):
                       found_input=bool(fails or spec_no))
 
 
+def large_case(name, params, args):
+    from bermuda import Triangle
+    from harness import summ_large
+
+    cells, given = summ_large.build(name, params)
+    fails = summ_large.stored_as_given(given)
+    t = Triangle(cells)
+    status, res = S.run_impl(lambda: t.aggregate(**args))
+    fails += aggregate_oracle(list(t.cells), args, status, res, [])
+    return fails, len(cells), status
+
+
+def early_snapshot():
+    from harness.coqterm import canon_tri
+
+    out = []
+    for cells, args, _ in directed_cases():
+        t, (status, res), _ = run_aggregate(cells, args)
+        out.append((status, type(res).__name__ if status == "err" else canon_tri(res)))
+    return out
+
+
+def large_stream(ctx):
+    import time
+
+    from harness import summ_large
+
+    t0 = time.time()
+    before = early_snapshot()
+    for name, params, args in summ_large.cases_c08(ctx.quick):
+        try:
+            fails, n_cells, status = large_case(name, params, args)
+        except Exception as ex:  # noqa: BLE001
+            fails, n_cells, status = [f"constructing the valid large input raised {type(ex).__name__}: {ex}"], 0, "err"
+        ctx.hist(f"large:{name}")
+        ctx.hist("large:cells", n_cells)
+        ctx.count(evaluations=1)
+        ctx.nontriv(("large", name, sorted(params.items(), key=str), args_to_data(args)))
+        if fails:
+            ctx.violation("impl-violation", f"aggregate violates C08 on a large input ({name} {params}, {n_cells} cells): {fails[0][:400]}",
+                          {"op": "large", "name": name, "params": params, "args": args_to_data(args), "failures": [f[:600] for f in fails[:5]]},
+                          found_input=True)
+    if early_snapshot() != before:
+        ctx.violation("impl-violation", "the earliest small cases give a different result after the large work (process-wide state)",
+                      {"op": "large-recheck"}, found_input=True)
+    ctx.notes.append(f"large stream: {len(summ_large.cases_c08(ctx.quick))} big cases judged by the Python-side oracles only "
+                     f"(no Coq literals; the theorems are size-independent), {time.time() - t0:.1f} s")
+
+
 def replay(ctx, data):
+    if data.get("op") == "large":
+        fails, n, status = large_case(data["name"], data["params"], args_from_data(data["args"]))
+        print(f"large case {data['name']} {data['params']}: {n} cells, aggregate -> {status}")
+        for f in fails:
+            print("  FAIL:", f[:300])
+        return 1 if fails else 0
+    if data.get("op") == "large-recheck":
+        large_stream(ctx)
+        return 1 if ctx.violations else 0
     if data.get("op") == "build-family":
         return S.replay_family(data)
     cells = S.cells_from_data(data["cells"])
